@@ -1437,6 +1437,10 @@ class ArgumentParser(ParserDeprecations, ActionsContainer, ArgumentLinking, argp
             if isinstance(value, str):
                 value = action.check_type(value, self)
         elif hasattr(action, "_check_type"):
+            if cfg and key != action.dest and key.endswith("." + action.dest):
+                # action of a subcommand: previous values are the ones inside the subcommand's settings
+                cfg = cfg.get(key[: -len(action.dest) - 1])
+                cfg = cfg if isinstance(cfg, Namespace) else None
             with parser_context(parent_parser=self):
                 value = action._check_type_(value, cfg=cfg)  # type: ignore[attr-defined]
         elif action.type is not None:
